@@ -680,7 +680,15 @@ class ModuleLoader(BaseLoader):
             try:
                 mod = __import__(module, None, None, ["root"])
             except ImportError as e:
-                raise TemplateNotFound(name) from e
+                # The loaders templates are compiled from (file system,
+                # package) treat "./a", "/a" and "a" as the same template.
+                # Look the name up in its normal form as well.
+                normal = "/".join(split_template_path(name))
+
+                if normal == name:
+                    raise TemplateNotFound(name) from e
+
+                return self.load(environment, normal, globals)
 
             # remove the entry from sys.modules, we only want the attribute
             # on the module object we have stored on the loader.
